@@ -260,7 +260,7 @@ func init() {
 				l, ok := b[0].(*ast.ForStmt)
 				if !ok || x.Src(l.Cond) != `a != "" && b != ""` || l.Init != nil || l.Post != nil {
 					x.fail("CompareNatural: loop is not `for a != \"\" && b != \"\"`")
-				} else if lb := l.Body.List; x.wantStmts("CompareNatural (loop)", lb,
+				} else if lb := mergeElseIf(l.Body.List); x.wantStmts("CompareNatural (loop)", lb,
 					"va, ra, aok := parseInt(a)", "vb, rb, bok := parseInt(b)", "*",
 					"pa, ra := parseStr(a)", "pb, rb := parseStr(b)", "if c := cmp.Compare(pa, pb); c != 0 { return c }", "a, b = ra, rb") {
 					g := lb[2].(*ast.IfStmt)
